@@ -5,6 +5,7 @@ mod s_body;
 mod s_conn;
 mod s_connexp;
 mod s_date;
+mod s_epoll;
 mod s_headers;
 mod s_modes;
 mod s_parse;
@@ -31,6 +32,7 @@ fn main() {
             "headers" => s_headers::run(&a[3]),
             "parse" => s_parse::run_parse(&a[3]),
             "body" => s_body::run(&a[3]),
+            "epoll" => s_epoll::run(&a[3]),
             "modes" => s_modes::run(&a[3]),
             "pool" => s_pool::run(&a[3]),
             "printer" => s_printer::run(&a[3]),
@@ -59,6 +61,7 @@ fn main() {
         "headers" => s_headers::gen(&ctx),
         "parse" => s_parse::gen_parse(&ctx),
         "body" => s_body::gen(&ctx),
+        "epoll" => s_epoll::gen(&ctx),
         "modes" => s_modes::gen(&ctx),
         "pool" => s_pool::gen(&ctx),
         "printer" => s_printer::gen(&ctx),
